@@ -73,5 +73,11 @@ Lemma range_exact_refuted_before_fix :
   (* enumerate(x, 2^63-1): the second index was -2^63 *)
   (old_enumerate_index 9223372036854775807 1 = -9223372036854775808).
 Proof.
-  repeat split; try (eexists; vm_compute; repeat split; discriminate).
+  split; [exists {| r_start := -9223372036854775808; r_stop := 9223372036854775807; r_step := 1; r_len := -1 |}; vm_compute; repeat split|].
+  split; [exists {| r_start := -9223372036854775808; r_stop := 9223372036854775807; r_step := 2; r_len := 0 |}; vm_compute; repeat split|].
+  split; [eexists; split; [vm_compute; reflexivity|]; vm_compute; split; discriminate|].
+  split; [exists {| r_start := 0; r_stop := 2199023255552; r_step := 1; r_len := 2199023255552 |}; vm_compute; repeat split|].
+  split; [exists {| r_start := -9223372036854775808; r_stop := 10; r_step := 1; r_len := -9223372036854775798 |}; vm_compute; repeat split|].
+  split; [exists {| r_start := 0; r_stop := 3; r_step := 1; r_len := 3 |}; vm_compute; repeat split|].
+  vm_compute. reflexivity.
 Qed.
